@@ -8,10 +8,25 @@ struct Ent {
     nix::Block b; nix::Section s; nix::Source o; nix::DataArray a; nix::DataFrame d; nix::Tag t; nix::MultiTag m; nix::Group g;
     nix::Feature r; nix::Property p;
 };
+// The slot table.  Behind every slot a TWIN is kept: a second handle of the same entity, fetched independently (by id, through
+// fresh lookups from the file) the first time the slot is used.  Calls through the slot alternate between the two handles:
+// nothing may be cached in a handle (a second backend object of the same entity must be indistinguishable from the first).
+struct SlotMap {
+    std::map<std::string, Ent> m, twin;
+    std::map<std::string, unsigned> uses;
+    std::map<std::string, bool> tried;
+    typedef std::map<std::string, Ent>::iterator iterator;
+    Ent &operator[](const std::string &k) { twin.erase(k); tried.erase(k); return m[k]; }    // (re)binding a slot forgets its twin
+    iterator find(const std::string &k) { return m.find(k); }
+    iterator end() { return m.end(); }
+    size_t count(const std::string &k) const { return m.count(k); }
+    void erase(const std::string &k) { m.erase(k); twin.erase(k); tried.erase(k); uses.erase(k); }
+    void clear() { m.clear(); twin.clear(); tried.clear(); uses.clear(); }
+};
 struct St {
     nix::File file;
     std::string path;
-    std::map<std::string, Ent> slots;
+    SlotMap slots;
 };
 St &state();
 Ent &slot(const std::string &s);
